@@ -330,6 +330,23 @@ func genE2E(c *ctx) {
 		}
 		c.emit(T("e2e", ty, A(codecs[i%3]), I(int64(bs)), vals, fl))
 	}
+	// blocks that hold more records than bytes: zero-width records, and many small identical
+	// records that compress to less than one byte each
+	for _, codec := range codecs {
+		for _, nrec := range []int{1, 7, 300} {
+			vals := L()
+			for k := 0; k < nrec; k++ {
+				vals.list = append(vals.list, T("struct"))
+			}
+			c.emit(T("e2e", T("static", A("stEmpty")), A(codec), I(1<<14), vals, L()))
+		}
+		tiny := T("struct", hs(""), hs(""), T("field", hs("A"), A("true"), hs("a"), hs(""), tInt(64)))
+		vals := L()
+		for k := 0; k < c.scale(1500, 6000); k++ {
+			vals.list = append(vals.list, T("struct", T("int", I(7))))
+		}
+		c.emit(T("e2e", tiny, A(codec), I(1<<20), vals, L()))
+	}
 }
 
 // ---- large blocks: payloads around and above the container reader's 1 MiB read chunk ----
